@@ -2,7 +2,9 @@ import vflib
 WRAPS = ("psGetEntropy", "gettimeofday", "time", "clock_gettime")
 def run(ctx):
     st = [dict(variant="asan", name="c15", sources=["checks/c15_dead.c", "harness/mx_wraps.c"], wraps=WRAPS, libs=["-lcrypto"],
-               shards=vflib.NCPU, timeout=7200 if ctx.thorough else 1200)]
+               shards=vflib.NCPU, timeout=7200 if ctx.thorough else 1200, replay_filter=lambda c: c.startswith("scn=")),
+          dict(variant="asan", name="c15f", sources=["checks/c15_fields.c", "harness/mx_wraps.c"], wraps=WRAPS, libs=["-lcrypto"],
+               shards=vflib.NCPU, timeout=3600 if ctx.thorough else 900, replay_filter=lambda c: c.startswith("fld=") or c.startswith("skip="))]
     rule = ("Each case = (scenario, role, cut point, error event, continuation) on a fork()ed clone of the live connection. Events: inbound alerts - plaintext, and authentic ones "
             "sealed with the peer's keys where the connection is protected - for every description at level fatal AND level warning (quick: 10/20/40/47/80 at both levels, "
             "user_canceled, no_renegotiation and an unassigned description at warning level, close_notify at both levels; thorough: every assigned description at both levels "
@@ -14,7 +16,21 @@ def run(ctx):
             "older record, garbage, a fresh ClientHello, an application encode, full honest pumping (the peer keeps sending valid records, also behind its close_notify), drain loops. "
             "After a recognised event: no APP_DATA, encode fails, no output beyond the alert, receive calls report error/close. Events that must be fatal but were not recognised "
             "are reported at the event (protocol-error-not-fatal; library-fatal-error-not-fatal for the DTLS truncation entry). "
-            "distinct_nontrivial counts distinct (version, scenario, role, cut, state, event, continuation) tuples whose event the endpoint recognised as an error.")
+            "Second stage (c15_fields.c, TLS 1.3, 'no error path reports success' at field level): (a) the genuine ClientHello / ServerHello - in HelloRetryRequest handshakes ClientHello1, HelloRetryRequest, ClientHello2 and ServerHello - of 11 key-exchange group "
+            "configurations (matrixSslSessOptsSetKeyExGroups: secp256r1, secp384r1, secp521r1, x25519, ffdhe2048, two shares, server using the second share, library default, "
+            "x25519 -> secp256r1 and secp256r1 -> x25519 retries; thorough: 17 configurations, all three suites) with ONE field edited and every enclosing length kept consistent: each key_share entry one byte short / long, empty, one byte, half, doubled, "
+            "of another group's length, all-zero, all-ones, declared length +-1, client_shares length +-1, the extension cut by one byte / in half / emptied, and every other extension cut "
+            "by one byte / in half / emptied; a by-construction table says which edits cannot be anything but an error (wrong size of the share the receiver has to use, vectors below "
+            "their minimum, lengths running past the extension, truncated supported_versions / supported_groups / signature_algorithms): those must be answered by a fatal error "
+            "(protocol-error-not-fatal otherwise), and after any recognised error the genuine original, honest pumping with application data, an application encode and a fresh "
+            "ClientHello must all be refused. (b) early-data skip budget: servers with tls13SessionMaxEarlyData L in {0, 1, 40, 100, 1000, 16383, 16384} (thorough: 17 limits, 3 suites) "
+            "that reject the announced early data (external PSK unknown to the server with crafted undecryptable records or the client's genuine early data; early_data extension "
+            "appended to a PSK-less hello; none announced = no budget) x 14 record-length sequences (total == L then one more byte, L + 1 at once, L - 1 + 1 + 1, empty payloads, thirds, "
+            "seeded random sizes, a full 16 KiB record, records of 1..17 bytes that cannot hold a tag between full-budget records): reference model 'a record of length n counts "
+            "max(0, n - 17); skipped only while the total stays <= L' - a skipped record beyond L is reported (skip-budget-exceeded), the first refused record must be followed by "
+            "refusal of a further record, of the client's genuine Finished flight, of honest pumping and of an encode; sequences within the budget must let the genuine handshake "
+            "complete (control, inconclusive otherwise). "
+            "distinct_nontrivial counts distinct (version, scenario, role, cut, state, event, continuation) tuples whose event the endpoint recognised as an error, plus the distinct field / skip cases.")
     return vflib.std_run(ctx, st, "exploration", rule,
         ["events the endpoint does not treat as errors (DTLS silently dropping a bad datagram, warning-level alerts in TLS <= 1.2, a DTLS datagram shorter than a record header, "
          "send-side argument / limit errors that leave the session usable) are counted but not judged here (C02 / C16 judge modified and lost records)",
@@ -22,4 +38,9 @@ def run(ctx):
          "every state, like every other damaged DTLS record, and the property statement tolerates undecryptable records only while a TLS 1.3 server skips rejected early data - so the "
          "check asserts that this library-defined fatal error stays fatal (key c15:library-fatal-error-not-fatal:*); a deliberate move to silent discard must change this table entry",
          "received user_canceled (TLS 1.3) and warning-level alerts other than close_notify (TLS <= 1.2, DTLS) may be ignored or may end the session: not asserted either way",
-         "sending close_notify locally is not treated as death (the statement lists received close_notify only)"], min_nontrivial=500)
+         "sending close_notify locally is not treated as death (the statement lists received close_notify only)",
+         "field stage: edits outside the must-fail table (finite-field shares shorter than the prime - a left-padded integer read as the same number -, a share of a group the server does "
+         "not use, client_shares one byte shorter than its content, extensions the endpoint need not parse) are exercised; the stays-dead clauses apply when the library fails on them, "
+         "accepting them is not judged here",
+         "skip budget: a record counts its length minus tag and content-type byte (what the server can know without the key); records of length <= 17 count 0, so an unlimited number of them "
+         "is within any budget; whether a record too short to carry a tag is refused at once is not asserted (only that it never refunds budget)"], min_nontrivial=500)
